@@ -271,7 +271,7 @@ def run_impl(case):
     x, y = case_xy(case)
     before = snap(m)
     bnds = bounds_of(m)
-    rec = dict(called=False, evs=[])
+    rec = dict(called=False, evs=[], states=[], vars=[])
     orig = F.curve_fit
 
     def wrapped(**kwargs):
@@ -279,7 +279,12 @@ def run_impl(case):
 
         def f2(xx, *args):
             rec["evs"].append([float(a) for a in args])
-            return f(xx, *args)
+            out = f(xx, *args)
+            # the model object after THIS evaluation (the curve values the optimiser sees are computed from it)
+            rec["states"].append([float(m._var), float(m.len_scale), float(m.nugget)] + [float(getattr(m, o)) for o in m.opt_arg]
+                                 + [float(a) for a in np.atleast_1d(m.anis)])
+            rec["vars"].append(float(m.var))
+            return out
         kw2 = dict(kwargs)
         kw2["f"] = f2
         rec.update(called=True, p0=[float(v) for v in kwargs["p0"]], lo=[float(v) for v in kwargs["bounds"][0]],
@@ -371,6 +376,14 @@ def run_model(drv, case, impl, fx=True):
         res["dict"] = dict(var=r[6], len_scale=r[7], nugget=r[8], opt=list(r[9]), anis=(list(r[11]) if r[10] else None))
     else:
         res["err"] = int(r)
+    if rec["states"]:
+        # states after every COMPLETED evaluation (an evaluation that raised left no snapshot)
+        ne = len(rec["states"])
+        r3 = drv.call("fit_trace", *head, evm[:ne], *state)
+        if isinstance(r3, tuple):
+            res["trace"] = np.asarray(r3[1], float).reshape(ne, -1)
+        else:
+            res["trace"] = int(r3)
     if rec["called"]:
         k = case["kwargs"]
         ig = k.get("init_guess", "default")
@@ -409,6 +422,20 @@ def compare_model(ctx, case, impl, mod):
     """model (extracted FitBook on the recorded trace) vs implementation; returns list of disagreement strings"""
     bad = []
     ie, me = impl["err"], mod["err"]
+    # the model object after every evaluation of the curve (independent of how the call ended)
+    if "trace" in mod:
+        st = np.asarray(impl["rec"]["states"], float)
+        if isinstance(mod["trace"], int):
+            bad.append("state after evaluations: model error %s but the implementation completed %d evaluations" % (mod["trace"], len(st)))
+        elif st.shape != mod["trace"].shape:
+            bad.append("state after evaluations: shapes %r vs %r" % (st.shape, mod["trace"].shape))
+        else:
+            for kk in range(len(st)):
+                u = ulps(st[kk], mod["trace"][kk])
+                if u > ULP_STATE:
+                    bad.append("model state after evaluation %d at %r: implementation (_var, len_scale, nugget, opt, anis) = %r, model %r"
+                               % (kk, impl["rec"]["evs"][kk], list(st[kk]), list(mod["trace"][kk])))
+                    break
     if ie == 8:
         # errors outside the modelled bookkeeping (curve_fit itself, argument validation): the model must agree on
         # everything that happened before, i.e. it must not report one of ITS error kinds earlier -- unless the optimiser
@@ -546,6 +573,18 @@ def check_property(ctx, case, impl):
                 exp_anis[:2] = [1.0] * len(exp_anis[:2])
         if ulps(after["anis"], exp_anis) > 0:
             out.append(("untouched:anis", "anis not fitted (%r) but is %r after the call, expected %r" % (anis_kw, after["anis"], exp_anis)))
+    # 1b. a variance that is not fitted is the requested one after EVERY evaluation of the curve (otherwise the optimiser
+    #     fits the curves of a different model: TPL models rescale var with len_scale / hurst / len_low)
+    if "var" in ref:
+        for kk, vv in enumerate(impl["rec"].get("vars", [])):
+            if sill is not None:
+                badv = abs(vv - ref["var"]) > 8 * 2.220446049250313e-16 * max(abs(sill), abs(ref["var"]))
+            else:
+                badv = ulps(vv, ref["var"]) > tol_var
+            if badv:
+                out.append(("eval-var", "variance is not fitted (%r) but after evaluation %d of the curve at %r the model has var = %r, "
+                            "expected %r" % (sel.get("var"), kk, impl["rec"]["evs"][kk], vv, ref["var"])))
+                break
     # 2. inside bounds
     for nme in names + ["anis"]:
         v = after["anis"] if nme == "anis" else cur[nme]
@@ -624,6 +663,43 @@ def recovery_cases(rng, tier):
                         kwargs=dict(select=sel, init_guess="current", loss=str(rng.choice(["soft_l1", "linear"])),
                                     method="trf", tight=True))
             cases.append(case)
+    # TPL models with a variance that is NOT fitted (deselected, or fixed to the true value on a model that has another
+    # one): var = var_raw * var_factor(len_scale, hurst, len_low), so every evaluation has to restore the variance.
+    # The model starts far from the truth (x 0.6 .. 1.6); len_scale, nugget and (half of the cases) hurst are fitted;
+    # len_low is held (len_low -> 0 is flat).  Observed recovery <= 1e-7.
+    for cls in ("TPLGaussian", "TPLExponential", "TPLStable"):
+        for mode in ("deselected", "fixed", "sill"):
+            dim = int(rng.integers(1, 4))
+            L = float(rng.uniform(2.0, 12.0))
+            truth = dict(var=float(rng.uniform(0.5, 2.5)), len_scale=L, nugget=float(rng.uniform(0.1, 0.5)),
+                         hurst=float(rng.uniform(0.25, 0.75)), len_low=float(rng.choice([0.0, rng.uniform(0.1, 1.0)])))
+            if cls == "TPLStable":
+                truth["alpha"] = 1.5
+            case = dict(cls=cls, dim=dim, latlon=False, geo_scale=1.0, truth=truth, isdir=False, bounds={})
+            tm = build_model(case, "truth")
+            x = np.linspace(0.05 * L, 3.0 * L, 30)
+            y = tm.variogram(x)
+            fit_hurst = bool(rng.random() < 0.5)
+            start = dict(truth)
+            for k in ["len_scale", "nugget"] + (["hurst"] if fit_hurst else []):
+                start[k] = float(truth[k] * rng.uniform(0.6, 1.6))
+            start["hurst"] = min(start["hurst"], 0.9)
+            sel = [[k, False] for k in truth if k not in ("var", "len_scale", "nugget") and not (k == "hurst" and fit_hurst)]
+            kw = dict(init_guess="current", loss=str(rng.choice(["soft_l1", "linear"])), method="trf", tight=True)
+            if mode == "deselected":
+                sel.append(["var", False])
+            elif mode == "fixed":
+                start["var"] = float(truth["var"] * rng.uniform(0.5, 2.0))
+                sel.insert(0, ["var", truth["var"]])
+            else:       # sill prescribed and the nugget fixed: the variance is sill - nugget and never fitted
+                start["var"] = float(truth["var"] * rng.uniform(0.5, 2.0))
+                start["nugget"] = truth["nugget"]
+                sel.append(["nugget", False])
+                kw["sill"] = truth["var"] + truth["nugget"]
+            kw["select"] = sel
+            case.update(start=start, x=[C.fhex(v) for v in x], y=[C.fhex(v) for v in y], yshape=[30], kwargs=kw,
+                        fit_shape=False, also=(["hurst"] if fit_hurst else []))
+            cases.append(case)
     return cases
 
 
@@ -639,7 +715,7 @@ def run_recovery(ctx, case):
     bad = []
     if not impl["r2"] > 1 - 1e-6:
         bad.append("r2 = %r" % impl["r2"])
-    for k in ["var", "len_scale", "nugget"] + ([kk for kk in t if kk not in ("var", "len_scale", "nugget", "anis")] if case.get("fit_shape") else []):
+    for k in ["var", "len_scale", "nugget"] + case.get("also", []) + ([kk for kk in t if kk not in ("var", "len_scale", "nugget", "anis")] if case.get("fit_shape") else []):
         if abs(float(impl["dict"][k]) - t[k]) > 1e-4 * abs(t[k]):
             bad.append("%s fitted %r truth %r" % (k, float(impl["dict"][k]), t[k]))
     if case["isdir"]:
